@@ -63,3 +63,15 @@ fn c16_version_order() {
     kani::cover!(ab == Ordering::Equal && a.patch.is_none() && b.patch == Some(0), "missing revision equals revision 0");
     kani::cover!(ab == Ordering::Greater && a.major == b.major && a.minor == b.minor, "decided by revision");
 }
+
+//@ id: version_default_shape
+//@ prop: C16
+//@ functions: insim_core/src/game_version.rs <GameVersion as Default>::default
+//@ statement: the value the parser starts from (and returns for a string that stops after the number) has the shape the printer/parser pair can round-trip: a finite non-negative number, a letter A-Z, no revision
+#[kani::proof]
+fn c16_version_default_shape() {
+    let d = GameVersion::default();
+    assert!(d.major.is_finite() && d.major >= 0.0 && d.major.is_sign_positive(), "default number is finite and non-negative");
+    assert!(d.minor.is_ascii_uppercase(), "default letter is A-Z (a version printed with it parses back)");
+    assert!(d.patch.is_none(), "default has no revision");
+}
